@@ -6,7 +6,7 @@ from ..report import Inconclusive
 from ..gram import model as gm
 from ..gram.g4 import Alt, Ref
 from ..py.guards import AEval, Reach, KINDS, COMPLEX_KINDS, always_raises, resolved_text, stmt_of, reaching_def, handler_ok
-from ..py.index import u, walk_shallow
+from ..py.index import u, walk_shallow, pos
 from . import common, c07
 
 TABLE = "_VAR"
@@ -51,7 +51,7 @@ def raise_payload(fn, raise_stmt, ix=None, mod=None):
     """(class, [resolved texts of the values formatted into the message]) of `raise X("...".format(a, b, c))` / f-strings / `raise helper(...)`"""
     from ..py import norm
     e = raise_stmt.exc
-    names = ix.module_globals(mod) if ix is not None and mod else None
+    names = ix.module_globals(mod, follow=True) if ix is not None and mod else None
     if isinstance(e, ast.Call) and ix is not None:
         r = common.make_inliner(ix)(e)
         if r is not None and isinstance(r[0], ast.Call):
@@ -128,7 +128,7 @@ def membership_guard(fn, st, key):
     """the preceding `if <key> not in _VAR: raise` statement"""
     best = None
     for n in ast.walk(fn):
-        if isinstance(n, ast.If) and n.lineno < st.lineno and always_raises(n.body) and TABLE in u(n.test):
+        if isinstance(n, ast.If) and pos(n) < pos(st) and always_raises(n.body) and TABLE in u(n.test):
             t = n.test
             if isinstance(t, ast.Compare) and len(t.ops) == 1 and isinstance(t.ops[0], ast.NotIn):
                 try:
@@ -209,13 +209,28 @@ def c11_2(rep, ix, G):
 
 
 # ------------------------------------------------------------------------------------ C11.3 integer modes
+def mode_loops(fn):
+    """the loops that evaluate the modes of a statement: a for loop whose body binds `<name> = _expression(<something of the loop element>)`"""
+    out = []
+    for n in walk_shallow(fn):
+        if not isinstance(n, ast.For):
+            continue
+        tv = {x.id for x in ast.walk(n.target) if isinstance(x, ast.Name)}
+        for s_ in n.body:
+            if isinstance(s_, ast.Assign) and isinstance(s_.value, ast.Call) and u(s_.value.func) == "_expression" and isinstance(s_.targets[0], ast.Name) \
+                    and tv & {x.id for a in s_.value.args for x in ast.walk(a) if isinstance(x, ast.Name)}:
+                out.append(n)
+                break
+    return out
+
+
 def c11_3(rep, ix):
     R = "C11.3"
     rep.rule(R, "a mode value is stored only if it is an integer (Python or NumPy); for every other kind the mode loop raises", floor=len(KINDS))
     f = ix.func(STMT)
     fn = f.node
     # the loop that evaluates the modes: a for loop whose body calls _expression on the loop element and stores into the mode list
-    loops = [n for n in walk_shallow(fn) if isinstance(n, ast.For) and "_expression(" in u(n) and "modes" in u(n.iter)]
+    loops = mode_loops(fn)
     if len(loops) != 1:
         return c11_3_separate(rep, ix, f, R)
     loop = loops[0]
@@ -247,7 +262,8 @@ def c11_3(rep, ix):
                   "stored=%s, loop body completes normally=%s" % (reach_any, falls), key="mode|" + name)
     # the accumulated mode set is the union with exactly that list
     upd = [n for n in walk_shallow(fn) if isinstance(n, ast.AugAssign) and isinstance(n.op, ast.BitOr) and u(n.target).endswith("_modes")]
-    rep.check(len(upd) == 1 and u(upd[0].value) in ("set(modes)", "set(%s)" % u(loop.iter)) and upd[0].lineno > loop.lineno, R, ix.site(f, upd[0]) if upd else ix.site(f),
+    acc = {u(s_.value.func.value) for s_ in appends} | {u(s_.targets[0].value) for s_ in stores}
+    rep.check(len(upd) == 1 and u(upd[0].value) in {"set(%s)" % a_ for a_ in acc} | {"set(%s)" % u(loop.iter)} and pos(upd[0]) > pos(loop), R, ix.site(f, upd[0]) if upd else ix.site(f),
               "the program's mode set is updated, after the check, by union with the checked mode list", key="modes union")
 
 
@@ -260,7 +276,7 @@ def c11_3_separate(rep, ix, f, R):
     mlist = ev[0].targets[0].id
     checks = []
     for n in walk_shallow(fn):
-        if isinstance(n, ast.For) and n.lineno > ev[0].lineno and any(isinstance(x, ast.Raise) for x in ast.walk(n)) and "isinstance" in u(n):
+        if isinstance(n, ast.For) and pos(n) > pos(ev[0]) and any(isinstance(x, ast.Raise) for x in ast.walk(n)) and "isinstance" in u(n):
             checks.append(n)
     if not checks:
         rep.bad(R, ix.site(f, ev[0]), "every evaluated mode passes an integer check that raises otherwise", "no check loop after `%s`" % " ".join(u(ev[0]).split())[:60], key="mode|nocheck")
@@ -279,7 +295,7 @@ def c11_3_separate(rep, ix, f, R):
         want = name in INTEGRAL
         rep.check(falls == want, R, ix.site(f, c), "a mode value of kind %s is %s" % (name, "accepted" if want else "refused (the check raises)"), key="mode|" + name)
     upd = [n for n in walk_shallow(fn) if isinstance(n, ast.AugAssign) and isinstance(n.op, ast.BitOr) and u(n.target).endswith("_modes")]
-    rep.check(len(upd) == 1 and upd[0].lineno > c.lineno, R, ix.site(f, upd[0]) if upd else ix.site(f), "the program's mode set is updated only after the check", key="modes union")
+    rep.check(len(upd) == 1 and pos(upd[0]) > pos(c), R, ix.site(f, upd[0]) if upd else ix.site(f), "the program's mode set is updated only after the check", key="modes union")
 
 
 # ------------------------------------------------------------------------------------ C11.4 complex -> int/float
@@ -390,7 +406,7 @@ def c11_5(rep, ix, R="C11.5"):
         rep.check(r == equal, R, ix.site(f, st), "the binding is %s when the cast value %s the listed value" % ("reachable" if equal else "not reachable", "equals" if equal else "differs from"),
                   key="equal|%s" % equal)
     # the failing edge raises ValueError (possibly re-raised by the handler)
-    trys = [n for n in walk_shallow(fn) if isinstance(n, ast.Try) and st.lineno > n.lineno and any(x is d for d in defs for x in ast.walk(n))]
+    trys = [n for n in walk_shallow(fn) if isinstance(n, ast.Try) and pos(st) > pos(n) and any(x is d for d in defs for x in ast.walk(n))]
     for t in trys:
         for h in t.handlers:
             rep.check(always_raises(h.body), R, ix.site(f, h), "the handler around the cast re-raises", key="handler")
